@@ -64,7 +64,7 @@ pub fn run(ctx: &Ctx) -> i32 {
     // a whole assertion occurring twice (nested in a sibling or in the wrapped subject)
     trees.extend(families::repeated(if th { 7 } else { 6 }));
     let nbuilt = trees.len();
-    trees.extend(families::decode_only()); trees.extend(families::nsn());
+    trees.extend(families::decode_only()); trees.extend(families::nsn()); trees.extend(families::valued());
     let acc = trees.par_iter().enumerate().with_max_len(1).map(|(ti, m)| {
         let mut acc = Acc::new();
         acc.inc("trees");
